@@ -1213,7 +1213,12 @@ pub(crate) fn m_element_dispatch() {
         ("small", "<div><small>zzq</small></div>".into(), Parent("Container(")),
         ("q", "<div><q>zzq</q></div>".into(), Parent("Container(")),
     ];
-    assert!(html5ever::ns!(html).unsafe_data() == 2, "the XHTML namespace atom is not static atom 0");
+    // a broken *assumption of the check* (atom encoding of this string_cache / markup5ever version) is not a violation of
+    // the property: leave with a status the driver does not count as a reproduction (the check then answers exit 2)
+    if html5ever::ns!(html).unsafe_data() != 2 {
+        eprintln!("VERIF-REPLAY: the XHTML namespace atom is not static atom 0: the encoding assumed by element_dispatch does not hold");
+        std::process::exit(4);
+    }
     let tokens = ["Container(", "Link(", "Em(", "Strong(", "Strikeout(", "Code(", "Block(", "Header(", "Div(", "BlockQuote(",
                   "Ul(", "Ol(", "Dl(", "Dt(", "Dd(", "ListItem(", "Sup(", "TableCell(", "TableBody(", "TableRow(", "Table(", "RenderTableCell {"];
     let tree_of = |html: &str| -> String {
@@ -1227,7 +1232,10 @@ pub(crate) fn m_element_dispatch() {
         let packed = html5ever::LocalName::from(*name).unsafe_data();
         let mut enc: u64 = 1 | ((name.len() as u64) << 4);
         for (i, b) in name.bytes().enumerate() { enc |= (b as u64) << (8 * (i + 1)); }
-        assert!(packed == enc, "<{}> is not packed as an inline atom ({:#x} vs {:#x})", name, packed, enc);
+        if packed != enc {
+            eprintln!("VERIF-REPLAY: <{}> is not packed as an inline atom ({:#x} vs {:#x}): the encoding assumed by element_dispatch does not hold", name, packed, enc);
+            std::process::exit(4);
+        }
         if atom != 0 && atom != enc { continue; }
         checked += 1;
         let dbg = tree_of(html);
